@@ -31,4 +31,4 @@ def run(ctx):
         ctx, "other",
         "G1: no quote!/parse_quote! template of sylvia-derive spells a path that starts with the framework's (or a re-exported dependency's) crate name literally, nor a string literal containing one; G2: no template generics list that sits next to interpolated user generics declares a single-upper-case-letter type parameter; witnesses: (a) reply, override and interface/custom/generic suites compiled in a crate whose only dependency is the renamed framework, (b) generic contracts / interfaces using all 26 single letters and 28 conventional words as parameter / associated-type names - all must type-check",
         "token-level rules over every template of the generator (speak for all inputs) + compile-pass witnesses",
-        ["multi-letter helper names (BankT, ContractT, CustomMsgT ...) are only covered by the word-list witnesses, not by a rule"])
+        ["multi-letter helper names are decided by the computed witness w-typarams (every helper parameter name found in the templates, outside the reserved Sv prefix, is used as a user parameter / associated type)"])
